@@ -54,6 +54,12 @@ func init() {
 		fr.i.fsYield("mkdir")
 		p := fr.i.ex.env().abs(fr.i.ex.concStr(a[0]))
 		fr.i.ex.event("mkdir", p)
+		// a regular file in the way (the path itself or one of its ancestors)
+		for q := p; q != "/" && q != "."; q = path.Dir(q) {
+			if _, isFile := fr.i.ex.env().files[q]; isFile {
+				return mkPathError(fr, "mkdir", q, "not a directory")
+			}
+		}
 		fr.i.ex.env().dirs[p] = true
 		return nilError()
 	}
@@ -78,7 +84,19 @@ func init() {
 		fr.i.fsYield("remove")
 		p := fr.i.ex.env().abs(fr.i.ex.concStr(a[0]))
 		fr.i.ex.event("remove", p)
-		delete(fr.i.ex.env().files, p)
+		env := fr.i.ex.env()
+		if _, isFile := env.files[p]; !isFile {
+			// a directory goes only when it is empty; removing what does not exist is an error
+			if !env.isDir(p) {
+				return mkPathError(fr, "remove", p, "no such file or directory")
+			}
+			if len(env.children(p)) > 0 {
+				return mkPathError(fr, "remove", p, "directory not empty")
+			}
+			delete(env.dirs, p)
+			return nilError()
+		}
+		delete(env.files, p)
 		delete(fr.i.ex.yamlDocs, p) // the yaml documents registered for the file go with it (verifYamlDoc may register new ones)
 		return nilError()
 	}
@@ -96,7 +114,9 @@ func init() {
 		}
 		return false
 	}
-	I["os.IsExist"] = func(fr *frame, a []value) value { return false }
+	I["os.IsExist"] = func(fr *frame, a []value) value {
+		return errMessageContains(a[0], ": file exists") || errMessageContains(a[0], ": directory not empty")
+	}
 	I["path/filepath.Abs"] = func(fr *frame, a []value) value {
 		p := fr.i.ex.concStr(a[0])
 		fr.i.ex.event("abs", p)
